@@ -2,10 +2,11 @@ claim("C03",
       "Lean theorems (GFO.C03.*) prove for EVERY backend state machine, objective oracle, search space and history of search() calls that "
       "the driver model appends exactly n_iter rows without criteria and at most n_iter with, keeps earlier rows, consumes the initial "
       "positions once (n_init_total = min(n_inits, rows)), keeps n_init_total+n_iter_total = rows and one eval/iter time per step. "
-      "The model is tied to search.py by driver-level correspondence on all 22 optimizers + stub backends (every run), and the statement "
+      "The model is tied to search.py twice: the step methods _initialization / _iteration / search_step and n_inits_norm are REGENERATED from the source on every run "
+      "(translators.gen_driver) and proved equal to the model's initialization / iteration / searchStep (GFO.Gen.Drv.*_eq, rfl); and by driver-level correspondence on all 22 optimizers + stub backends (every run). The statement "
       "is also monitored on the real runs incl. tiny populations and single-point spaces.",
       "'Completes without raising' is proved for the driver given a non-raising in-space backend; per-optimizer totality is examined by the monitor (hazard configurations) - see DESIGN 5/C03.",
-      "Lean 4 proof (induction over steps and calls, parametric in the backend) + differential correspondence of the model with search.py",
+      "Lean 4 proof (translator-regenerated step methods proved equal to the model; induction over steps and calls, parametric in the backend) + differential correspondence of the model with search.py",
       "DESIGN.md section 5, C03")
 claim("C04",
       "GFO.C04.rows_are_evaluations: for every backend and every deterministic objective the rows a search() call appends are, in evaluation order, "
